@@ -147,7 +147,7 @@ pub fn run_reads(doc: &[u8], shared: &Rc<Vec<u8>>, st: &Stream, kind: ReaderKind
                 break;
             }
         }
-        ticks = rd.ticks;
+        ticks = rd.timers.now();
     });
     let l = log.borrow();
     let mut rec = RunRec {
